@@ -14,7 +14,9 @@
 // The OOB callback option is always present; whether it has data is script controlled.
 //
 // script lines (ints):
-//   reset <oob_present> <sync_answer -1|0|1>       new manager + connection (as link_layer does on connect)
+//   reset <oob_present> <sync_answer -1|0|1> [<this> <other>]   new manager + connection (as link_layer does on connect);
+//                                                 this / other: bit masks of the (EDIV,Rand) slots the application's bond
+//                                                 data base holds an entry for, for this peer / for another peer (default 2 0)
 //   req <io> <oob> <auth> [<maxkey> <idist> <rdist>]   Pairing Request with exactly these fields   (C36 + C32)
 //   pdu <opcode> <lenclass 0 ok|1 short|2 long> <label>   any other SMP PDU from the central
 //        label: confirm(3): 0 honest, 1 honest for a wrong TK, 2 flipped bit
@@ -24,8 +26,11 @@
 //   poll                                          l2cap_output
 //   user <0|1>                                    the user answers the pending yes/no question (if one is pending)
 //   enc <0|1>                                     what link_layer does on LL_START_ENC_RSP / LL_PAUSE_ENC_*
-//   find <which>                                  find_key as link_layer does on LL_ENC_REQ: 0 (0,0), 1 preset bond,
-//                                                 2 unknown (ediv,rand), 3 (ediv,rand) of the bond created by pairing
+//   find <slot>                                   find_key as link_layer does on LL_ENC_REQ for the (EDIV,Rand) of the slot:
+//                                                 0 (0,0), 1 (ediv,rand) of an earlier bond, 2 (ediv,rand) nobody distributed,
+//                                                 3 (ediv,rand) of the bond created by pairing, 4 (0,rand#0), 5 (ediv#0,0)
+//   db <peer 0 this|1 other> <slot> <0|1>         the application erases / stores the bond data base entry (slot, peer); every
+//                                                 (slot, peer) has its own key value, different from every pairing result
 #include <iterator>
 #include <vector>
 #include <tuple>
@@ -85,15 +90,41 @@ struct oob_t {
 
 static const std::uint16_t PRESET_EDIV = 0x4711; static const std::uint64_t PRESET_RAND = 0x1122334455667788ull;
 static const std::uint16_t NEW_EDIV = 0x1234;    static const std::uint64_t NEW_RAND = 0xaabbccdd00112233ull;
-static uint128_t preset_key() { return uint128_t{{0xb0, 0xb1, 0xb2, 0xb3, 0xb4, 0xb5, 0xb6, 0xb7, 0xb8, 0xb9, 0xba, 0xbb, 0xbc, 0xbd, 0xbe, 0xbf}}; }
+// (EDIV,Rand) classes ("slots") of the spec
+static const int NSLOTS = 6;
+static std::uint16_t slot_ediv(int s) { static const std::uint16_t v[NSLOTS] = {0, PRESET_EDIV, 0x0bad, NEW_EDIV, 0, PRESET_EDIV}; return v[s]; }
+static std::uint64_t slot_rand(int s) { static const std::uint64_t v[NSLOTS] = {0, PRESET_RAND, 0x0badbadbadull, NEW_RAND, PRESET_RAND, 0}; return v[s]; }
+// the key the application stores for (slot, this peer / another peer): one value per entry, none of them a pairing result
+static uint128_t app_key(int peer, int slot) {
+    uint128_t k; k.fill(std::uint8_t((peer ? 0x61 : 0x41) + slot)); k[0] = 0x99; k[15] = std::uint8_t(peer);
+    return k;
+}
 
 struct db_t {
     struct entry { std::uint16_t ediv; std::uint64_t rand; device_address addr; uint128_t key; };
     std::vector<entry> entries;
+    std::vector<uint128_t> made;          // keys handed out by create_new_bond, oldest first
     int created, stored;
-    void init(const device_address& bonded_peer) {
-        entries.clear(); created = stored = 0;
-        entries.push_back(entry{PRESET_EDIV, PRESET_RAND, bonded_peer, preset_key()});
+    device_address peers[2];              // [0] the peer of the connection under test, [1] some other bonded device
+    void init(const device_address& bonded_peer, unsigned mask_this, unsigned mask_other) {
+        entries.clear(); made.clear(); created = stored = 0;
+        peers[0] = bonded_peer;
+        peers[1] = bluetoe::link_layer::random_device_address({0xc6, 0xc5, 0xc4, 0xc3, 0xc2, 0xc1});
+        for (int s = 0; s < NSLOTS; ++s) {
+            if (mask_this  & (1u << s)) set(0, s, true);
+            if (mask_other & (1u << s)) set(1, s, true);
+        }
+    }
+    // the application stores / erases the entry (slot, peer)
+    void set(int peer, int slot, bool on) {
+        for (std::size_t i = 0; i < entries.size(); ++i)
+            if (entries[i].ediv == slot_ediv(slot) && entries[i].rand == slot_rand(slot) && entries[i].addr == peers[peer]) { entries.erase(entries.begin() + i); break; }
+        if (on) entries.push_back(entry{slot_ediv(slot), slot_rand(slot), peers[peer], app_key(peer, slot)});
+    }
+    bool holds(int peer, int slot) const {
+        for (auto& e : entries)
+            if (e.ediv == slot_ediv(slot) && e.rand == slot_rand(slot) && e.addr == peers[peer] && e.key == app_key(peer, slot)) return true;
+        return false;
     }
     template <class Radio>
     bluetoe::details::longterm_key_t create_new_bond(Radio&, const device_address&) {
@@ -101,6 +132,7 @@ struct db_t {
         bluetoe::details::longterm_key_t k;
         for (int i = 0; i < 16; ++i) k.longterm_key[i] = std::uint8_t(0xc0 + i + 16 * created);   // a fresh key per bond
         k.rand = NEW_RAND; k.ediv = NEW_EDIV;
+        made.push_back(k.longterm_key);
         return k;
     }
     template <class Connection>
@@ -273,17 +305,20 @@ struct harness {
     explicit harness(verif::tracer& tr) : sm(nullptr), t(tr), last_asked(0), last_ndisp(0) {}
     conn_t& conn() { return sm->connection_data_; }
 
-    void reset(int oob_present, int sync) {
+    void reset(int oob_present, int sync, unsigned mask_this, unsigned mask_other) {
         delete sm;
         io.init(sync); oob.present = oob_present != 0; oob.asked = 0; last_asked = last_ndisp = 0;
         sm = new sm_t();                                   // local b1..b6 public, remote a1..a6 random (test_sm.hpp)
         const device_address remote = bluetoe::link_layer::random_device_address({0xa6, 0xa5, 0xa4, 0xa3, 0xa2, 0xa1});
-        db.init(remote);
+        db.init(remote, mask_this, mask_other);
         sm->connection_data_ = conn_t();                   // as link_layer does when a connection is requested
         sm->connection_data_.remote_connection_created(remote);
         central.init(remote, sm->local_address());
         t.ev("Reset").f("kind", SM_KIND).f("in", SM_IN).f("out", SM_OUT).f("mitm", bool(SM_MITM)).f("bond", bool(SM_BOND))
          .f("oob", oob.present).f("sync", sync);
+        std::vector<int> pre, prex;
+        for (int s = 0; s < NSLOTS; ++s) { if (db.holds(0, s)) pre.push_back(s); if (db.holds(1, s)) prex.push_back(s); }
+        t.fl("pre", pre).fl("prex", prex);
         obs(); t.end();
     }
 
@@ -423,25 +458,31 @@ struct harness {
     }
 
     void find(int which) {
-        std::uint16_t ediv = 0; std::uint64_t rand = 0;
-        if (which == 1) { ediv = PRESET_EDIV; rand = PRESET_RAND; }
-        if (which == 2) { ediv = 0x0bad; rand = 0x0badbadbadull; }
-        if (which == 3) { ediv = NEW_EDIV; rand = NEW_RAND; }
+        if (which < 0 || which >= NSLOTS) which = 2;
+        const std::uint16_t ediv = slot_ediv(which); const std::uint64_t rand = slot_rand(which);
         const std::pair<bool, uint128_t> r = conn().find_key(ediv, rand);
-        const char* kid = "none";
+        // identity of the offered key: which of the keys that exist in this execution is it?
+        const char* kid = "none"; int kslot = -1;
         if (r.first) {
             kid = "unknown";
             if (central.have_key && r.second == central.cur_key) kid = "cur";
-            else if (r.second == preset_key()) kid = "preset";
             else {
                 for (auto& k : central.old_keys) if (k == r.second) kid = "old";
-                for (auto& e : db.entries) if (e.key == r.second) kid = (e.ediv == 0 && e.rand == 0) ? "bond0" : "bond";
+                for (std::size_t i = 0; i < db.made.size(); ++i) if (db.made[i] == r.second) kid = i + 1 == db.made.size() ? "new" : "newold";
+                for (int p = 0; p < 2; ++p) for (int sl = 0; sl < NSLOTS; ++sl) if (r.second == app_key(p, sl)) { kid = p ? "other" : "this"; kslot = sl; }
             }
         }
         // is the returned key also what the bond data base holds for this (ediv, rand, peer)?
         const auto in_db = db.find_key(ediv, rand, conn().remote_address());
-        t.ev("Find").f("which", which).f("found", r.first).f("kid", kid).f("indb", in_db.first).f("dbsame", in_db.first && r.first && in_db.second == r.second);
+        t.ev("Find").f("which", which).f("found", r.first).f("kid", kid).f("kslot", kslot).f("indb", in_db.first)
+         .f("dbsame", in_db.first && r.first && in_db.second == r.second);
         obs(); t.end();
+    }
+
+    void dbset(int peer, int slot, int on) {
+        if (slot < 0 || slot >= NSLOTS) slot = 2;
+        db.set(peer != 0, slot, on != 0);
+        t.ev("Db").f("peer", peer != 0 ? 1 : 0).f("slot", slot).f("on", on != 0); obs(); t.end();
     }
 };
 
@@ -453,14 +494,15 @@ int main(int argc, char** argv) {
     harness h(t);
     verif::command c;
     while (verif::read_command(in, c)) {
-        if (c.op == "reset") { h.reset(int(c.arg(0)), int(c.arg(1, -1))); continue; }
-        if (!h.sm) h.reset(0, -1);
+        if (c.op == "reset") { h.reset(int(c.arg(0)), int(c.arg(1, -1)), unsigned(c.arg(2, 2)), unsigned(c.arg(3, 0))); continue; }
+        if (!h.sm) h.reset(0, -1, 2, 0);
         if (c.op == "req") h.req(c);
         else if (c.op == "pdu") h.pdu(c);
         else if (c.op == "poll") h.poll();
         else if (c.op == "user") h.user(int(c.arg(0)));
         else if (c.op == "enc") h.enc(int(c.arg(0)));
         else if (c.op == "find") h.find(int(c.arg(0)));
+        else if (c.op == "db") h.dbset(int(c.arg(0)), int(c.arg(1)), int(c.arg(2)));
         else { std::fprintf(stderr, "bad op %s\n", c.op.c_str()); return 3; }
     }
     t.flush();
